@@ -83,7 +83,7 @@ def check(tier='quick', seed=0):
         except Exception as ex:     # noqa: BLE001
             fail(clause='raised', tokens=dict(tok), error=repr(ex))
     # legacy forms
-    for cyc, task in itertools.product(['1', '20200101T0000Z'], ['foo', 'foo_bar-1']):
+    for cyc, task in itertools.product(['1', '20200101T0000Z', '123'], ['foo', 'foo_bar-1', 'model.v2', 'a.b.c']):
         for state in (None, 'failed'):
             n_eval += 1
             want = Tokens(cycle=cyc, task=task, **({'task_sel': state} if state else {}))
@@ -97,7 +97,21 @@ def check(tier='quick', seed=0):
                         fail(clause=4, legacy=legacy, upgraded=up[1], tokens=dict(got), expected=dict(want))
                 except Exception as ex:     # noqa: BLE001
                     fail(clause=4, legacy=legacy, error=repr(ex))
-    name = 'bounded::identifier tokens <-> strings round-trip (clauses 1-4 of contracts/c23_bounded.py)'
+                # ... and through the command-line parser: `cylc <cmd> wf <legacy id>` is ONE workflow with a
+                # task selection, not two workflows (multi-digit cycles: what the legacy patterns recognise)
+                if cyc != '1':
+                    from cylc.flow.id_cli import _parse_cli
+                    n_eval += 1
+                    try:
+                        parsed = _parse_cli('wf', legacy)
+                        ok = (len(parsed) == 1 and parsed[0]['workflow'] == 'wf' and parsed[0]['cycle'] == cyc
+                              and parsed[0]['task'] == task and parsed[0]['task_sel'] == state)
+                        if not ok:
+                            fail(clause=4, via='_parse_cli', legacy=legacy, parsed=[dict(t) for t in parsed],
+                                 expected=dict(workflow='wf', cycle=cyc, task=task, task_sel=state))
+                    except Exception as ex:     # noqa: BLE001
+                        fail(clause=4, via='_parse_cli', legacy=legacy, error=repr(ex))
+    name ='bounded::identifier tokens <-> strings round-trip (clauses 1-4 of contracts/c23_bounded.py)'
     rule = ('every prefix-closed assignment of user/workflow/cycle/task/job (and selectors: at most one in the '
             'quick tier) over a vocabulary of 2/4/5/5/5 values incl. globs, hierarchical workflow names and '
             'un-padded job numbers; distinct = distinct identifier strings produced')
